@@ -26,6 +26,7 @@ type SEnv struct {
 	depth   int
 	qfacts  *[]Term
 	qstack  []*qlevel
+	pkgCtx  *types.Package // package context override (bodies of spec funcs of another package)
 	assumeMode bool // the formula being evaluated will be assumed, not proved
 	localsFirst bool // identifiers denote current values of locals/params (loop invariants, call-site asserts)
 }
@@ -51,6 +52,9 @@ func (e *SEnv) sub() *SEnv {
 }
 
 func (e *SEnv) pkg() *types.Package {
+	if e.pkgCtx != nil {
+		return e.pkgCtx
+	}
 	f := e.fn
 	for f.Parent() != nil {
 		f = f.Parent()
@@ -70,6 +74,17 @@ func (e *SEnv) pkg() *types.Package {
 type qlevel struct {
 	vars  []string
 	facts *[]Term
+}
+
+func (e *SEnv) mentionsBound(t Term) bool {
+	for _, lv := range e.qstack {
+		for _, v := range lv.vars {
+			if strings.Contains(t, v) {
+				return true
+			}
+		}
+	}
+	return false
 }
 
 // addFact records a typing fact of a value read in a specification.  Facts that
@@ -106,10 +121,16 @@ func (e *SEnv) addFact(st *State, f Term) {
 func (e *SEnv) load(st *State, ref, off Term, t types.Type) Val {
 	vc := e.vc
 	v := vc.loadAt(st, ref, off, t)
-	if vc.inQuant == 0 {
-		ks := vc.p.lay.of(t).Kinds
-		for i := range v.S {
+	ks := vc.p.lay.of(t).Kinds
+	for i := range v.S {
+		if vc.inQuant == 0 {
 			v.S[i] = vc.define("sl", ks[i].Sort(), v.S[i])
+		} else if !e.mentionsBound(v.S[i]) {
+			// ground sub-term inside a quantifier: name it outside
+			saved := vc.inQuant
+			vc.inQuant = 0
+			v.S[i] = vc.define("sl", ks[i].Sort(), v.S[i])
+			vc.inQuant = saved
 		}
 	}
 	e.addFact(st, vc.wellTyped(st, v))
@@ -327,14 +348,25 @@ func (e *SEnv) quant(x *SQuant) Val {
 		t := e.resolveType(v.Type)
 		lay := vc.p.lay.of(t)
 		val := Val{T: t}
+		rootPtr := false
+		if pt, isPtr := types.Unalias(t).Underlying().(*types.Pointer); isPtr && vc.p.rootOnly(pt.Elem()) {
+			rootPtr = true
+		}
 		for i, k := range lay.Kinds {
+			if rootPtr && i == 1 {
+				val.S = append(val.S, "0") // pointers to root-only types have offset 0
+				continue
+			}
 			vc.n++
 			name := fmt.Sprintf("q!%d_%s_%d", vc.n, cleanName(v.Name), i)
 			binders = append(binders, fmt.Sprintf("(%s %s)", name, k.Sort()))
 			val.S = append(val.S, name)
 		}
 		n.vars[v.Name] = val
-		_ = guards
+		// pointer-typed bound variables range over valid non-nil pointers
+		if _, isPtr := types.Unalias(t).Underlying().(*types.Pointer); isPtr {
+			guards = append(guards, tNot(tEq(val.S[0], "0")), vc.wellTyped(e.cur, val))
+		}
 	}
 	var fa, fc []Term
 	vc.inQuant++
@@ -373,6 +405,9 @@ func (e *SEnv) quant(x *SQuant) Val {
 	q := "exists"
 	if x.Forall {
 		q = "forall"
+		body = tImp(tAnd(guards...), body)
+	} else {
+		body = tAnd(append(guards, body)...)
 	}
 	return boolVal(fmt.Sprintf("(%s (%s) %s)", q, strings.Join(binders, " "), body))
 }
@@ -388,6 +423,20 @@ func (e *SEnv) resolveType(s string) types.Type {
 		return tyBool
 	case "byte":
 		return types.Typ[types.Uint8]
+	}
+	if e.pkgCtx != nil {
+		// resolve in the scope of any file of that package (imports differ per file)
+		var lastErr error
+		if pk := e.vc.p.byPath[e.pkgCtx.Path()]; pk != nil {
+			for _, f := range pk.Syntax {
+				tv, err := types.Eval(e.vc.p.fset, e.pkgCtx, f.End()-1, s)
+				if err == nil {
+					return tv.Type
+				}
+				lastErr = err
+			}
+		}
+		e.fail("type %q in package %s: %v", s, e.pkgCtx.Path(), lastErr)
 	}
 	tv, err := types.Eval(e.vc.p.fset, e.pkg(), e.fnPos(), s)
 	if err != nil {
@@ -853,7 +902,29 @@ func (e *SEnv) call(x *SCall) Val {
 		}
 		fn := vc.p.ssa.FuncValue(m)
 		if fn == nil {
-			e.fail("method %s has no SSA function (interface method?)", sel.Name)
+			// interface method: usable in a specification when it has a getter contract
+			key := "(" + shortenPaths(types.TypeString(types.Unalias(recv.T), nil)) + ")." + sel.Name
+			if ct := vc.p.contracts[key]; ct != nil && ct.Getter {
+				args := []Val{recv}
+				for _, a := range x.Args {
+					args = append(args, e.eval(a))
+				}
+				r := vc.getterUF(key, args, vc.resultType(m.Type().(*types.Signature)))
+				e.addFact(e.cur, vc.wellTyped(e.cur, r))
+				e.getterEnsures(ct, r, args, m.Type().(*types.Signature))
+				return r
+			}
+			e.fail("method %s has no SSA function and no getter contract (%s)", sel.Name, key)
+		}
+		if ct := vc.p.contracts[funcKey(fn)]; ct != nil && ct.Getter {
+			args := []Val{recv}
+			for _, a := range x.Args {
+				args = append(args, e.eval(a))
+			}
+			r := vc.getterUF(funcKey(fn), args, vc.resultType(fn.Signature))
+			e.addFact(e.cur, vc.wellTyped(e.cur, r))
+			e.getterEnsures(ct, r, args, fn.Signature)
+			return r
 		}
 		// adapt receiver: value vs pointer
 		sig := m.Type().(*types.Signature)
@@ -896,10 +967,21 @@ func (e *SEnv) specCall(sf *SpecFunc, argx []SExpr) Val {
 	if len(argx) != len(sf.Params) {
 		e.fail("spec func %s: %d arguments, want %d", sf.Name, len(argx), len(sf.Params))
 	}
+	var ctx *types.Package
+	if sf.PkgPath != "" {
+		if pk := vc.p.byPath[sf.PkgPath]; pk != nil && pk.Types != e.pkg() {
+			ctx = pk.Types
+		}
+	}
+	tenv := e
+	if ctx != nil {
+		tenv = e.sub()
+		tenv.pkgCtx = ctx
+	}
 	var args []Val
 	for i, a := range argx {
 		v := e.eval(a)
-		pt := e.resolveType(sf.Params[i].Type)
+		pt := tenv.resolveType(sf.Params[i].Type)
 		if isUntypedNil(v.T) {
 			v = vc.zeroVal(pt)
 		}
@@ -911,7 +993,7 @@ func (e *SEnv) specCall(sf *SpecFunc, argx []SExpr) Val {
 	}
 	if sf.Body == nil {
 		// uninterpreted function of the argument slots
-		rt := e.resolveType(sf.Result)
+		rt := tenv.resolveType(sf.Result)
 		var sorts, terms []string
 		for _, a := range args {
 			for i, k := range vc.p.lay.of(a.T).Kinds {
@@ -942,6 +1024,9 @@ func (e *SEnv) specCall(sf *SpecFunc, argx []SExpr) Val {
 		n.vars[p.Name] = args[i]
 	}
 	n.ct = nil
+	if ctx != nil {
+		n.pkgCtx = ctx
+	}
 	return n.eval(sf.Body)
 }
 
@@ -993,4 +1078,19 @@ func dedupTerms(ts []Term) []Term {
 		}
 	}
 	return out
+}
+
+// getterEnsures records the ensures clauses of a getter contract as facts of
+// this application.
+func (e *SEnv) getterEnsures(ct *Contract, res Val, args []Val, sig *types.Signature) {
+	vc := e.vc
+	if vc.inQuant > 0 {
+		return
+	}
+	env := &SEnv{vc: vc, fr: e.fr, fn: e.fn, cur: e.cur, old: e.cur, vars: map[string]Val{}, ct: ct, assumeMode: true}
+	bindParams(env, paramNames(nil, sig, true), args)
+	env.results = splitResults(vc, res, sig)
+	for _, en := range ct.Ensures {
+		vc.assume(e.cur, env.evalBool(en.Expr))
+	}
 }
